@@ -33,6 +33,7 @@ func run(c *hc.Ctx) {
 	corrCanon(c)
 	corrStart(c)
 	corrDash(c)
+	oracleRegressions(c)
 	oracleCurves(c)
 	oracleDegenerate(c)
 	finishHist(c)
@@ -265,6 +266,7 @@ func corrStart(c *hc.Ctx) {
 		r := math.Mod(off+pos0-pre, P)
 		congruent := r == 0
 		replay := map[string]any{"offset": off, "d": d, "i0": i0, "pos0": pos0}
+		// (since 8d5b47c for every offset; the kinds below are the regression classes of that defect)
 		if !(pos0 <= 0) || !congruent {
 			kind := "dashStart:phase"
 			if off < -P {
@@ -272,7 +274,7 @@ func corrStart(c *hc.Ctx) {
 			}
 			fail(c, kind, fmt.Sprintf("dashStart(%v,%v) = (%d,%v): piece %d would start at path position %v; expected a position <= 0 congruent to %v modulo %v",
 				off, d, i0, pos0, i0, pos0, pre-off, P), replay)
-		} else if off >= 0 && !(-pos0 < d[i0]) {
+		} else if !(-pos0 < d[i0]) {
 			fail(c, "dashStart:not-inside-first-piece", fmt.Sprintf("dashStart(%v,%v) = (%d,%v): -pos0 >= d[i0]", off, d, i0, pos0), replay)
 		}
 	}
